@@ -413,11 +413,61 @@ def r10f(ctx, run):
     c11.r11e(ctx, run)
 
 
+def r10g(ctx, run):
+    """an index that is only looked THROUGH is still an index: `arr[i].len`, `ss[i].v` with a zero-sized `v`.  The Member arm of the expression compiler
+    must compile the expression in front of the `.` on every path that yields a result - that is where an index in it is evaluated and checked (and where
+    a call in it runs).  Path rule over the arm: every `return` and the arm's own result come after compile_expr / compile_expr_with_args(previous, ..)
+    (or compile_global for `file.name`, which has nothing in front to evaluate); the exits of `?` are exempt."""
+    import paths
+    sfn = ctx.syn.fn("FunctionCompiler::compile_expr_with_args", "codegen/src/compiler/functions.rs")
+    arm = None
+    for m in synq.matches_on(sfn.body):
+        for h, p_, g, b, a in synq.match_table(m):
+            if h and h.endswith("Expr::Member") and a["end"] - a["ln"] > 50:
+                arm = (p_, b, a)
+    if arm is None:
+        raise LookupError("Expr::Member arm of compile_expr_with_args")
+    binder = next((x["n"] for x in walk(arm[0]) if x.get("k") == "p_ident" and x["n"] == "previous"), None)
+    if binder is None:
+        raise LookupError("the Member arm does not bind `previous`")
+
+    def compiles_previous(n):
+        return any(x.get("k") == "mcall" and canon(x["r"]) == "self" and x["m"] in ("compile_expr", "compile_expr_with_args", "compile_and_cast") and x["a"] and canon(x["a"][0]) == binder
+                   for x in walk(n))
+    # `if !matches!(previous_ty, Ty::File(_)) { compile previous }`: a file in front of the `.` is the one thing with nothing to evaluate; the test itself
+    # counts as the evaluation when its other branch compiles `previous`
+    file_tests = set()
+    for x in walk(arm[1]):
+        if x.get("k") == "if" and "Ty::File" in canon(x["c"]) and (compiles_previous(x["t"]) or (x.get("e") is not None and compiles_previous(x["e"]))):
+            file_tests |= {id(y) for y in walk(x["c"])}
+
+    def step(node, st):
+        if id(node) in file_tests and node.get("k") == "macro":
+            return ("evaluated", st[1])
+        if node.get("k") == "mcall" and canon(node["r"]) == "self":
+            if node["m"] in ("compile_expr", "compile_expr_with_args", "compile_and_cast") and node["a"] and canon(node["a"][0]) == binder:
+                return ("evaluated", st[1])
+            if node["m"] == "compile_global":
+                return ("evaluated", st[1])
+        ln = node.get("ln")
+        return (st[0], ln if ln else st[1])
+    fall, exits = paths.run(arm[1], ("not evaluated", arm[2]["ln"]), step)
+    results = [("result", st) for st in fall] + [("return", st) for kind, label, st in exits if kind == "return" and label != "?"]
+    if len(results) < 5:
+        raise LookupError("result paths of the Member arm: %d" % len(results))
+    bad = sorted({st[1] for what, st in results if st[0] != "evaluated"})
+    run.check(not bad, sfn.site(arm[2]["ln"]), "Member arm: every result follows the compilation of the expression in front of the `.` (%d result paths)" % len(results), sfn.qual,
+              "member-evaluates-previous", sfn.file, bad[0] if bad else arm[2]["ln"],
+              "the Member arm yields a result near line %s without compiling the expression in front of the `.`: in `arr[next(7)].len` or `ss[i].v` (v of size zero) the index is "
+              "neither evaluated nor checked against the length - an out-of-range index passes silently and a call in it never runs" % ", ".join(map(str, bad)))
+
+
 def rules(ctx):
     return [
         Rule("R10.a", "Expr::Index: check `index <u len` with the right operands dominates every use of the element address", 7, r10a),
         Rule("R10.b", "#unwrap: variant check dominates unwrap_sum_ty for tagged unions and nullable pointers", 3, r10b),
         Rule("R10.f", "the tag #unwrap / #is_variant compare with is the tag the producer wrote for that side (get_tagged_union_discrim evaluated; shared with C11 R11.e)", 11, r10f),
+        Rule("R10.g", "a member access compiles the expression in front of the `.` on every result path: an index in it is evaluated and checked (path rule over the Member arm)", 1, r10g),
         Rule("R10.c", "fault path: brif(cond, pass, fail); puts(message), exit(1), trap in order", 10, r10c),
         Rule("R10.d", "literal index >= array size is rejected at compile time", 1, r10d),
         Rule("R10.e", "every index is checked: no return before the bounds check in the Index arm (zero-sized items included)", 1, r10e),
